@@ -485,7 +485,7 @@ SLOPES = ['0.04', '0.0625', '0.1', '0.16', '0.2', '0.25', '0.26', '0.5', '0.8', 
 
 def lit_or_const(r, case, text, p=0.3):
     """a literal, or (with probability p) a variable defined by `k = literal`"""
-    if r.random() < p:
+    if r.random() < p or case.get('force_const'):
         name = 'k%d' % len(case['consts'])
         case['consts'][name] = text
         return ['v', name]
@@ -653,6 +653,22 @@ def gen_model_case(seed, neq):
     case = {'kind': 'model', 'seed': seed, 'consts': {}, 'inter': {}, 'eqs': [], 'exclude': []}
     for i in range(neq):
         case['eqs'].append(gen_equation(r, case, i))
+    if r.random() < 0.3:
+        # the SAME product of two terms with different singular points twice in one model (two gates with identical
+        # kinetics): every number is a model constant, so the two right-hand sides are structurally equal expressions and
+        # the cached analysis of the first is reused for the second
+        case['force_const'] = True
+        for _ in range(20):
+            excl = list(case['exclude'])
+            e = gen_equation(r, case, neq)
+            case['exclude'] = excl          # a discarded try must not leave its name on the exclusion list
+            if e['shape'] == 'prod_diff':
+                twin = dict(e, name='i%d' % (neq + 1))
+                if r.random() < 0.5:
+                    twin = dict(twin, ast=['+', e['ast'], lit_or_const(r, case, '0.25')], shape='additive-twin')
+                case['eqs'] += [e, twin]
+                break
+        case['force_const'] = False
     return case
 
 
